@@ -64,7 +64,15 @@ let world_of args =
 let render op args =
   match op with
   | "render" | "text" | "frags" | "recursion" | "validate" | "spaceless" -> Some (show_obs (api_render_string (world_of args) (arg args 0) (parse_ctx (argd args 1))))
-  | "renderfile" -> Some (show_obs (api_render_file (world_of args) (arg args 0) (parse_ctx (argd args 1))))
+  | "renderfile" | "invalid" -> Some (show_obs (api_render_file (world_of args) (arg args 0) (parse_ctx (argd args 1))))
+  | "loadlog" | "canary" ->
+    let (o, log) = api_render_file_log (world_of args) (arg args 0) (parse_ctx (argd args 1)) in
+    (match log with
+     | Some l ->
+       Some (show_obs o ^ "#" ^ String.concat "," (List.map (fun (LGet (i, n, hit)) ->
+           Printf.sprintf "%d:%s:%s" (int_of_nat i) (match n with [] -> "" | _ -> hex_of_str n) (if hit then "1" else "0")) l))
+     | None -> Some (show_obs o ^ "#*"))
+  | "abs" -> Some (ok (fsloader_abs (arg args 0) (arg args 1)))
   | "history" ->
     (* one compiled template executed with several contexts: in the model execution is a
        pure function of the compiled template, so each execution is a fresh render *)
@@ -106,7 +114,54 @@ let filter_op op args =
      | Panic _ -> Some "panic")
   | _ -> None
 
+(* ---- histories of operations on a template set (C03, C20) ---- *)
+let hexlist_sorted (l : n list list) : string =
+  match l with
+  | [] -> "-"
+  | _ -> String.concat "," (List.sort compare (List.map (fun s -> match s with [] -> "" | _ -> hex_of_str s) l))
+
+let parse_sop (s : string) : sop =
+  match String.split_on_char ':' s with
+  | ["B"; "t"; n] -> OBanTag (str_of_hex n)
+  | ["B"; "f"; n] -> OBanFilter (str_of_hex n)
+  | ["S"; src] -> OFromString (str_of_hex src)
+  | ["F"; n] -> OFromFile (str_of_hex n)
+  | ["C"; n] -> OFromCache (str_of_hex n)
+  | ["R"; src] -> ORenderString (str_of_hex src)
+  | ["RF"; n] -> ORenderFile (str_of_hex n)
+  | ["X"; l] -> OCleanCache (parse_hexlist l)
+  | ["D"; b] -> OSetDebug (b = "1")
+  | ["W"; n; c] -> OSetFile (str_of_hex n, str_of_hex c)
+  | _ -> raise (Bad_descr ("set op " ^ s))
+
+let show_sres = function
+  | RErr -> "e"
+  | ROk -> "k"
+  | RTpl st -> Printf.sprintf "t%d" (int_of_n st)
+  | ROut (OOk o) -> "ook:" ^ hex_of_str o
+  | ROut (OCompileErr _) | ROut (OExecErr (_, _)) -> "oe"
+  | ROut OUnmod | RUnmod -> "unmodelled"
+  | ROut OFuel -> "fuel"
+  | ROut (OPanic p) -> Printf.sprintf "panic:%d" (int_of_n p)
+
+let setops op args =
+  match op with
+  | "setops" ->
+    let files = (match parse_files (argd args 0) with [] -> [] | l :: _ -> l) in
+    let ops = List.map parse_sop (String.split_on_char ';' (argd args 1)) in
+    let rs = s_run (s_init files) ops in
+    let unm = ref false in
+    let parts = List.map (fun (r, st) ->
+        (* once an operation is outside the model, the rest of the history is too *)
+        let rs = show_sres r in
+        if rs = "unmodelled" then unm := true;
+        if !unm then "unmodelled"
+        else Printf.sprintf "%s~%s|%s|%s|%s" rs (if st.s_created then "1" else "0")
+            (hexlist_sorted st.s_btags) (hexlist_sorted st.s_bfilters) (hexlist_sorted (List.map fst st.s_cache))) rs in
+    Some (String.concat ";" parts)
+  | _ -> None
+
 let first_some fs op args =
   List.fold_left (fun acc f -> match acc with Some _ -> acc | None -> f op args) None fs
 
-let run op args = first_some [c17; lexer; render; filter_op] op args
+let run op args = first_some [c17; lexer; render; filter_op; setops] op args
